@@ -5,8 +5,9 @@
 (* {"sched":[[delay_us,freq_us],...],"ev":[{"k":..,"a":..,"c":time_us,"d":..}, ...]}                *)
 EXTENDS Integers, Sequences, Json, IOUtils, TLC
 T == ndJsonDeserialize(IOEnv.TRACE_FILE)
-VARIABLES tr, i, newT, startT, base, rbase, stopRet, stopCalled, cancelled, inFn, cnt, exited, why
-vars == <<tr, i, newT, startT, base, rbase, stopRet, stopCalled, cancelled, inFn, cnt, exited, why>>
+VARIABLES tr, i, newT, startT, base, rbase, stopRet, stopCalled, cancelled, inFn, cnt, exited, why,
+          rpend   \* invocations since a Restart call the runner goroutine has not processed yet (-1: none pending)
+vars == <<tr, i, newT, startT, base, rbase, stopRet, stopCalled, cancelled, inFn, cnt, exited, why, rpend>>
 \* base = the EARLIEST instant the first schedule can have (re)started: Start, or the last Restart call
 \*        (the Restart event is logged after the channel send, the goroutine restarts at or after the send
 \*         began - the harness logs the time after; the previous base stays valid as a lower bound until then)
@@ -24,10 +25,20 @@ StartOf(k, b) == IF k = 1 THEN b ELSE StartOf(k - 1, b) + Sch[k][1]
 IdxOf(f) == IF \E k \in 1..NS : Sch[k][2] = f THEN CHOOSE k \in 1..NS : Sch[k][2] = f ELSE 0
 
 Init == /\ tr \in 1..Len(T) /\ i = 0 /\ newT = 0 /\ startT = -1 /\ base = -1 /\ rbase = -1 /\ stopRet = FALSE /\ stopCalled = FALSE
-        /\ cancelled = FALSE /\ inFn = FALSE /\ cnt = [k \in 1..3 |-> 0] /\ exited = FALSE
+        /\ cancelled = FALSE /\ inFn = FALSE /\ cnt = [k \in 1..3 |-> 0] /\ exited = FALSE /\ rpend = -1
         /\ why = IF T[tr].err = "" THEN {} ELSE {[p |-> "MACHINERY", c |-> T[tr].err]}
 
 Next == /\ i < Len(T[tr].ev) /\ i' = i + 1 /\ UNCHANGED tr
+        \* Restart() only SENDS; the goroutine turns to it when its select picks it (hook rr.restart). While the function
+        \* is executing nothing is picked, and when it returns a tick that became due meanwhile competes with the pending
+        \* restart on equal terms: invocations of the old schedule are legitimate until the restart has been processed,
+        \* however long the function took - but only a few of them (each needs a slow invocation AND a lost coin flip);
+        \* a restart that is never processed is still caught by that bound
+        /\ rpend' = LET e == T[tr].ev[i + 1] IN
+                     CASE e.k = "restart" -> (IF rpend >= 0 THEN rpend ELSE 0)
+                       [] e.k = "h.restart" -> -1
+                       [] e.k = "fnb" /\ rpend >= 0 -> rpend + 1
+                       [] OTHER -> rpend
         /\ LET e == T[tr].ev[i + 1] IN
            CASE e.k = "new" -> newT' = e.c /\ UNCHANGED <<startT, base, rbase, stopRet, stopCalled, cancelled, inFn, cnt, exited, why>>
              [] e.k = "start" ->
@@ -46,7 +57,7 @@ Next == /\ i < Len(T[tr].ev) /\ i' = i + 1 /\ UNCHANGED tr
                   LET k == IdxOf(e.a)
                       kk == IF k = 0 THEN 1 ELSE k
                       lb == IF kk = 1 THEN base ELSE IF rbase >= 0 THEN StartOf(kk, rbase) ELSE StartOf(kk, base)
-                      preRestart == rbase >= 0 /\ e.c <= rbase + RSLACK
+                      preRestart == rbase >= 0 /\ (e.c <= rbase + RSLACK \/ (rpend >= 0 /\ rpend < 3))
                   IN
                   /\ why' = why \cup Fails(<<
                         <<startT >= 0, "function-invoked-before-start">>,
